@@ -6,6 +6,33 @@ From Celer Require Import Base.Num Base.NumR Base.Vec3 C12.Solver C12.Surfaces
 Import ListNotations.
 Local Open Scope R_scope.
 
+(** over R there is no NaN: the faithful min_element / fmin models coincide
+    with the plain minimum [min_isect] / [omin] of C12 *)
+Lemma Reqb_refl x : Reqb x x = true.
+Proof. apply Reqb_true. reflexivity. Qed.
+Lemma fold_left_ext' {A B} (f g : A -> B -> A) l a : (forall x y, f x y = g x y) ->
+  fold_left f l a = fold_left g l a.
+Proof. intros E. revert a. induction l as [|b l IH]; cbn; intros a; [reflexivity|]. rewrite E. apply IH. Qed.
+Lemma min_elt_R (l : list (option R)) : min_elt l = min_isect l.
+Proof.
+  unfold min_elt, min_isect. destruct l as [|x r]; [reflexivity|]. cbn [fold_left].
+  replace (omin None x) with x by (destruct x; reflexivity).
+  apply fold_left_ext'. intros a b. destruct a as [a|], b as [b|]; cbn; numR; try reflexivity.
+  rewrite Reqb_refl. reflexivity.
+Qed.
+Lemma fmin_o_R (a b : option R) : fmin_o a b = omin a b.
+Proof. destruct a as [a|], b as [b|]; cbn; numR; rewrite ?Reqb_refl; reflexivity. Qed.
+Lemma volume_safety_R flag faces (p : vec) :
+  volume_safety flag faces p =
+  if negb flag then Some 0 else fold_left (fun acc s => omin acc (calc_safety s p)) faces None.
+Proof.
+  unfold volume_safety. destruct flag; cbn [negb]; [|reflexivity].
+  apply fold_left_ext'. intros. apply fmin_o_R.
+Qed.
+Lemma find_safety_R (levels : list (level (T:=R))) :
+  find_safety levels = fold_left (fun acc l => omin acc (level_safety l)) levels None.
+Proof. unfold find_safety. apply fold_left_ext'. intros. apply fmin_o_R. Qed.
+
 (** ** geometry *)
 Definition dist2 (p x : vec) : R := vdot (vsub x p) (vsub x p).
 (** strictly the same side of the surface *)
@@ -95,10 +122,8 @@ Definition surf_ok (s : surface R) : Prop :=
   end.
 
 Ltac csafe :=
-  unfold calc_safety, normal_is_nan, normal_raw; cbn [surf_simple_safety negb surf_normal surf_sense surf_intersect].
-
-Lemma Reqb_refl x : Reqb x x = true.
-Proof. apply Reqb_true. reflexivity. Qed.
+  unfold calc_safety, normal_is_nan, normal_raw; rewrite !min_elt_R;
+  cbn [surf_simple_safety negb surf_normal surf_sense surf_intersect].
 
 Theorem plane_aligned_safety_is_distance t pos p :
   calc_safety (SPlaneAligned t pos) p = Some (Rabs (vget t p - pos)).
@@ -483,7 +508,7 @@ Theorem min_faces_conservative flag faces p rho :
   faces_ok faces p -> volume_safety flag faces p = Some rho ->
   forall s, In s faces -> ball_clear s p rho.
 Proof.
-  intros Hok Hs s Hin. unfold volume_safety in Hs.
+  intros Hok Hs s Hin. rewrite volume_safety_R in Hs.
   destruct flag; cbn [negb] in Hs.
   - apply fold_omin_le in Hs. destruct Hs as [_ Hle].
     destruct (Hok s Hin) as [Ho Hn].
@@ -516,7 +541,7 @@ Proof.
   intros Hok Hs. destruct faces as [|s l]; [reflexivity|exfalso].
   destruct (Hok s (or_introl eq_refl)) as [Ho Hn].
   destruct (calc_safety_some s p Ho Hn) as (rs & Es).
-  unfold volume_safety in Hs. cbn [negb fold_left] in Hs. rewrite Es in Hs. cbn [omin] in Hs.
+  rewrite volume_safety_R in Hs. cbn [negb fold_left] in Hs. rewrite Es in Hs. cbn [omin] in Hs.
   assert (G : forall (l : list (surface R)) a, fold_left (fun acc s => omin acc (calc_safety s p)) l (Some a) <> None).
   { clear. induction l as [|s l IH]; cbn; intros a; [discriminate|].
     destruct (calc_safety s p) as [y|]; cbn; [numR; destruct (Rltb y a)|]; apply IH. }
@@ -529,12 +554,12 @@ Theorem min_levels_conservative (levels : list (level (T:=R))) rho :
   find_safety levels = Some rho ->
   forall l, In l levels -> forall s, In s (lv_faces l) -> ball_clear s (lv_pos l) rho.
 Proof.
-  intros Hok Hs l Hl s Hin. unfold find_safety in Hs.
+  intros Hok Hs l Hl s Hin. rewrite find_safety_R in Hs.
   apply fold_omin_le in Hs. destruct Hs as [_ Hle].
   destruct (level_safety l) as [rl|] eqn:El.
   - apply ball_clear_mono with rl; [eapply Hle; eauto|].
     unfold level_safety in El. eapply min_faces_conservative; eauto.
-  - unfold level_safety, volume_safety in El. destruct (lv_flag l); cbn [negb] in El; [|discriminate].
+  - unfold level_safety in El. destruct (lv_flag l) eqn:Fl; [|rewrite volume_safety_R in El; discriminate].
     apply volume_safety_inf_no_faces in El; [|apply Hok; assumption]. rewrite El in Hin. destruct Hin.
 Qed.
 
@@ -557,7 +582,7 @@ Proof.
   repeat split.
   - cbn. lra.
   - exact Hc.
-  - unfold find_safety, level_safety, volume_safety. cbn [fold_left lv_flag lv_faces lv_pos negb]. rewrite Hc. reflexivity.
+  - rewrite find_safety_R. cbn [fold_left]. unfold level_safety. cbn [lv_flag lv_faces lv_pos]. rewrite volume_safety_R. cbn [fold_left negb]. rewrite Hc. reflexivity.
   - unfold dist2, vdot, vsub. cbn [vx vy vz]. numR. replace ((2 - 0) * (2 - 0) + (0 - 0) * (0 - 0) + (0 - 0) * (0 - 0)) with (2 * 2) by ring.
     apply sqrt_square. lra.
   - unfold surf_f, SurfacesProofs.sq. cbn [vx vy vz]. ring.
